@@ -251,6 +251,7 @@ def check(tier: str) -> int:
     tlc_checks(run, tier)
     seed = core.seed()
     _replay(run, "TraceStream.full1.emit")
+    _replay(run, "TraceStream.slice3.emit")       # several generated classes of one factory in one pipeline
     if tier == "quick":
         _replay(run, "TraceStream.full2.emit")
         _replay(run, "TraceStream.sim.emit", simulate="num=600", depth=24, seed=seed + 7)
